@@ -178,7 +178,9 @@ impl AutosarModel {
         if self.0.read().files.is_empty() {
             root_element.set_parent(ElementOrModel::Model(self.downgrade()));
             root_element.0.write().file_membership.insert(arxml_file.downgrade());
-            self.0.write().root_element = root_element;
+            let old_root = std::mem::replace(&mut self.0.write().root_element, root_element);
+            // the previous (empty) root element is no longer a part of the model
+            old_root.set_parent(ElementOrModel::None);
         } else {
             let result = self.merge_file_data(&root_element, arxml_file.downgrade());
             if let Err(error) = result {
